@@ -41,6 +41,7 @@ ShapesOf(t, k) == {s[3] : s \in {x \in Slots : x[1] = t /\ x[2] = k}}
 ValueFaults(i) ==
     LET a == Act(i)  t == Enclosing(i) IN
     IF a.a \in {"pattern", "points"} THEN {"pair-elem-wrong-type"}   \* a wrong-typed number inside a list of pairs
+    ELSE IF a.a = "repeated" THEN {"repeated-wrong-type"}             \* a number where a repeated keyword wants a string
     ELSE IF a.a # "attr" \/ <<t, a.key>> \in Required THEN {}      \* (a required keyword is the target of missing-required)
     ELSE LET k == a.key  sh == a.val.sh  shapes == ShapesOf(t, k) IN
          (IF sh = "enum" /\ shapes \subseteq {"enum"} THEN {"enum-outside"} ELSE {})
@@ -58,6 +59,7 @@ ObjectFaults(i) ==     \* i = 0: the root block; otherwise an "open" item
 NameOf(i, kind) ==
     IF kind \in {"unknown-keyword", "missing-required"} THEN (IF i = 0 THEN RootType ELSE Act(i).type)
     ELSE IF Act(i).a \in {"pattern", "points"} THEN Act(i).a
+    ELSE IF Act(i).a = "repeated" THEN Act(i).key
     ELSE Act(i).key
 
 Inject ==
